@@ -24,6 +24,8 @@ def check_strict_verify(v, r, what='verify'):
     if k == 'OK':
         if r[0] == 'ok' and r[1] is True:
             return out, None
+        if getattr(v, 'bad_refs', None) and r[0] == 'GE' and r[1] == 'ManifestMismatch' and r[2].path in v.bad_refs:
+            return out, 'wrong-second-manifest-reference'
         if v.maybe and r[0] == 'GE' and r[1] == 'ManifestMismatch' and r[2].path in v.maybe:
             return out, 'mtime-shortcut'
         out.append(viol('verify.false-alarm', '%s: model says the tree matches, gemato %s' % (what, describe(r)),
@@ -45,7 +47,7 @@ def check_strict_verify(v, r, what='verify'):
     if k == 'MISMATCH':
         if r[0] == 'GE' and r[1] == 'ManifestMismatch':
             p = r[2].path
-            if p in v.offending or p in v.maybe:
+            if p in v.offending or p in v.maybe or p in getattr(v, 'bad_refs', ()):
                 return out, None
             out.append(viol('verify.wrong-path', '%s: ManifestMismatch names %r, model offending set %r' % (
                 what, p, sorted(v.offending)), sig='wrong-path'))
